@@ -88,6 +88,22 @@ Definition skips_obj (o : obj) : bool :=
   | _ => false
   end.
 
+(** the positional reader on what the binary serializer wrote: does it give the object back and
+    consume everything ("na": the object is outside the reader) *)
+Fixpoint no_anyone (l : list validator) : bool :=
+  match l with [] => true | VAnyOne _ :: _ => false | _ :: t => no_anyone t end.
+Definition pos_obj (o : obj) : string :=
+  match ser_obj false o, o with
+  | Some t, OValidator (VAnyOne _) => "na"
+  | Some t, OValidator v =>
+      match pos_validator (flat t) with Some (v', []) => if validator_eqb v v' then "ok" else "differs" | Some _ => "differs" | None => "dec-err" end
+  | Some t, OClaimSchema c =>
+      if no_anyone (cs_validators c) then
+        match pos_claim_schema (flat t) with Some (c', []) => if cs_eqb c c' then "ok" else "differs" | Some _ => "differs" | None => "dec-err" end
+      else "na"
+  | _, _ => "na"
+  end.
+
 (** hand-written codecs: points are the chunks the implementation's point decoder accepts *)
 Definition tleaf (w : nat) (table : list bytes) : leaf bytes :=
   {| l_w := w; l_enc := fun b => b; l_dec := fun b => if existsb (list_eqb b) table then Some b else None |}.
@@ -111,6 +127,7 @@ Inductive case : Type :=
 | KTree (hr : bool) (o : obj)
 | KRt (hr : bool) (o : obj)
 | KSkips (o : obj)
+| KPos (o : obj)
 | KCodec (c : codec) (t48 t96 : list bytes) (b : bytes).
 
 Definition run_case (k : case) : string :=
@@ -118,6 +135,7 @@ Definition run_case (k : case) : string :=
   | KTree hr o => show_otree (ser_obj hr o)
   | KRt hr o => show_bool (rt_obj hr o)
   | KSkips o => show_bool (skips_obj o)
+  | KPos o => pos_obj o
   | KCodec c a b x => run_codec c a b x
   end.
 
